@@ -134,22 +134,30 @@ example : eSafe (leafRule c07ExUnsafeLeaf c07ExOverride).1.flags = false ∧
 example : eSafe (leafRule (.leaf {} (.imp "os")) c07ExOverride).1.flags = true := by decide
 
 /- lifted to the tail of `ComposedNode.on_merge_impl` (`finishMerge`, with promotions): the flags of
-   the resulting container -/
+   the resulting container; when `other` is promoted (`b = false`: it is returned in place of `self`, with
+   `self.__dict__`) it must have been safe itself — by whatever cause, also an inherited one — for the result to be
+   safe (repair "a promoted node lost its own unsafety") -/
 theorem C07_finishMerge_conj {sf : Flags} {sk : CompKind} {scs : List (Key × Node)} {o r : Node} {b : Bool}
     (h : finishMerge sf sk scs o = .ok (r, b)) :
-    eSafe r.flags = (eSafe sf && (o.flags.safe != some false) && o.flags.dSafe) := by
+    eSafe r.flags = (eSafe sf && (o.flags.safe != some false) && o.flags.dSafe && (b || eSafe o.flags)) := by
   unfold finishMerge at h
   split at h
   · split at h
     · cases h
     · rename_i r' same hp
       cases h
-      rw [propagate_flags, maybePromote_flags hp, C07_replaceSelf_conj]
+      rw [propagate_flags, maybePromote_flags hp]
+      cases b
+      · simp [eSafe_promotedFlags, C07_replaceSelf_conj]
+      · simp [C07_replaceSelf_conj]
   · split at h
     · cases h
     · rename_i r' same hp
       cases h
-      rw [propagate_flags, maybePromote_flags hp, C07_replaceOther_conj]
+      rw [propagate_flags, maybePromote_flags hp]
+      cases b
+      · simp [eSafe_promotedFlags, C07_replaceOther_conj]
+      · simp [C07_replaceOther_conj]
 
 example : ∃ r b, finishMerge { safe := some false } (.call "f") [] (.comp { prio := some 1 } .dict []) = .ok (r, b) ∧
     eSafe r.flags = false := ⟨_, _, rfl, by decide⟩
@@ -235,14 +243,14 @@ theorem C07_finishMerge_unsafe_reaches_children {sf : Flags} {sk : CompKind} {sc
       cases h
       rw [propagate_isStream] at hst
       exact eSafe_of_iSafe_false (propagate_children_unsafe _ hst
-        (by rw [maybePromote_flags hp, (C07_merge_explicit_unsafe_kept _ _ hu).2.2]; rfl) key c hm)
+        (by rw [maybePromote_safe_false hp (C07_merge_explicit_unsafe_kept _ _ hu).2.2]; rfl) key c hm)
   · split at h
     · cases h
     · rename_i r' same hp
       cases h
       rw [propagate_isStream] at hst
       exact eSafe_of_iSafe_false (propagate_children_unsafe _ hst
-        (by rw [maybePromote_flags hp, (C07_merge_explicit_unsafe_kept _ _ hu).2.1]; rfl) key c hm)
+        (by rw [maybePromote_safe_false hp (C07_merge_explicit_unsafe_kept _ _ hu).2.1]; rfl) key c hm)
 
 example : finishMerge { prio := some 1 } .dict [(.str "x", .leaf {} (.imp "os"))] (.comp { safe := some false } .dict [])
     = .ok (.comp { prio := some 1, safe := some false } .dict [(.str "x", .leaf { iSafe := some false } (.imp "os"))], true) := rfl
@@ -274,7 +282,7 @@ theorem C07_compMerge_unsafe_reaches_children (rec : Node → Node → Except Er
             intro key c hm
             rw [propagate_isStream] at hst
             exact eSafe_of_iSafe_false (propagate_children_unsafe _ hst
-              (by rw [maybePromote_flags hp, (C07_merge_explicit_unsafe_kept of sf hu.symm).2.1]; rfl) key c hm)
+              (by rw [maybePromote_safe_false hp (C07_merge_explicit_unsafe_kept of sf hu.symm).2.1]; rfl) key c hm)
       · split at h
         · cases h
         · exact C07_finishMerge_unsafe_reaches_children h hu hst
